@@ -11,7 +11,7 @@ RULE = ("Listings L from the real objdump (random ELF64/ELF32 objects), from tes
         "mnemonic of operand-less instructions), whole-line comments (also ones that quote an instruction row), blank lines, section headers, the file-format header, 0-12 leading spaces, "
         "raw-byte column content / byte count 1-7 / padding width (column present and well-formed), byte-continuation lines "
         "added/removed. Edits use R-line's segmentation: only a trailing ' <...>' and a trailing ' # ...' segment are touched. "
-        "A quarter of the pairs is compared under a rule that configures valid_addr_range, a fifth after a run WITH the option on L. "
+        "A quarter of the pairs is compared under a rule that names `sections` (drawn from the listing's own banners and decoys), a quarter under a rule that configures valid_addr_range, a fifth after a run WITH the option on L. "
         "Metamorphic oracle on the real code: stream(L) == stream(L') and the address lists of 3 rules drawn from L's "
         "mnemonics/operands are equal. Non-trivial = at least one edit changed the text and L has >= 3 instructions; "
         "distinct = (L hash, edit script).")
@@ -151,6 +151,13 @@ def judge(ctx, ws, text, origin):
     mode = ctx.rng.random() if origin != "syn" else 1.0     # synthetic listings give branch mnemonics arbitrary operands, which the option rejects
     RANGE = "config:\n  valid_addr_range:\n    min: '0'\n    max: 'ffffffffffffffff'\npattern:\n  - zzzzzz\n"
     rule_text = RANGE if mode < 0.25 else "pattern:\n  - zzzzzz\n"
+    if ctx.rng.random() < 0.25:
+        # a rule that names sections (an option of the binary route): for a listing the banners stay presentation
+        names = re.findall(r"Disassembly of section ([^:\n]+):", text) + [".text", ".init", "nosuch"]
+        secs = ctx.rng.sample(sorted(set(names)), ctx.rng.randint(1, min(2, len(set(names)))))
+        cfg = "config:\n  sections:\n" + "".join(f"    - '{n}'\n" for n in secs)
+        rule_text = cfg + (rule_text[len("config:\n"):] if rule_text.startswith("config:") else rule_text)
+        ctx.event("pairs_compared_under_a_rule_naming_sections")
     if 0.25 <= mode < 0.45:
         pre = objd.real_stream(ws, p1, rule_text=RANGE)
         ctx.ran()
@@ -163,7 +170,7 @@ def judge(ctx, ws, text, origin):
         return
     r2 = objd.real_stream(ws, p2, rule_text=rule_text)
     ctx.ran(2)
-    case = {"origin": origin, "listing": text[:60000], "edited": text2[:60000], "edits": sorted(set(edits))}
+    case = {"origin": origin, "listing": text[:60000], "edited": text2[:60000], "edits": sorted(set(edits)), "rule_text": rule_text}
     ctx.case((hash(text), tuple(edits)), text != text2 and len(rinsts) >= 3, stratum=origin.split(":")[0])
     for e in set(edits):
         ctx.event("edit:" + e)
@@ -221,7 +228,8 @@ def run_shard(ctx):
 def replay(ctx, case):
     ws = real.Workspace()
     p1, p2 = ws.write("a.s", case["listing"]), ws.write("b.s", case["edited"].encode())
-    r1, r2 = objd.real_stream(ws, p1), objd.real_stream(ws, p2)
+    rt = case.get("rule_text") or "pattern:\n  - zzzzzz\n"
+    r1, r2 = objd.real_stream(ws, p1, rule_text=rt), objd.real_stream(ws, p2, rule_text=rt)
     ctx.ran(2)
     if r1[0] == "ok" and (r2[0] != "ok" or r1[1] != r2[1]):
         ctx.disagreement(case, "stream differs between the listing and its edited presentation")
